@@ -272,7 +272,7 @@ def C13(ctx):
     mc(ctx, "SigV4", "MC_SigV4_bug_scope_before_window.cfg", expect_violation="Precedence", label="neg-scope-before-window")
     fn_campaign(ctx, [("errtable", 0)], [])
     req_campaign(ctx, [("defects", 2 if q else 14), ("scripts", 1 if q else 0), ("degenerate", 0), ("akid", 0),
-                       ("reqfold", 0), ("ioerr", 0), ("spell", 0), ("cfgmix", 0, 13 if q else 1)])
+                       ("reqfold", 0), ("ioerr", 0), ("spell", 0), ("dup", 0), ("cfgmix", 0, 13 if q else 1)])
     return dict(
         rule="MC: SigV4.tla Precedence/Taxonomy over every subset of simultaneous defects (%s) x 4 carriers x provider "
              "scripts; E: one wire request per (defect subset with <= %d defects, carrier, 3 witnesses per rule), rendered "
@@ -304,7 +304,7 @@ def C01(ctx):
     pipeline_mc(ctx, q)
     mb = 0 if q else 1
     req_campaign(ctx, [("sigmut", 0), ("mut_struct", 0), ("mut_key", 0), ("mut_body", mb), ("mut_uri", mb), ("mut_hdr", mb),
-                       ("s3hash", 0), ("zerokey", 0), ("fold", 1), ("foldmethod", 0)]
+                       ("s3hash", 0), ("zerokey", 0), ("fold", 1), ("foldmethod", 0), ("dup", 0)]
                  + ([] if q else [("base", 1)]))
     logical_campaign(ctx, 400 if q else 20000)
     return dict(
@@ -416,7 +416,7 @@ def C15(ctx):
     q = ctx.quick
     pipeline_mc(ctx, q)
     fn_campaign(ctx, [("foldsize", 0)], [])
-    req_campaign(ctx, [("passthru", 0), ("fold", 0), ("reqfold", 0), ("cfgmix", 0, 13 if q else 1)] + ([] if q else [("base", 1), ("fold", 1)]))
+    req_campaign(ctx, [("passthru", 0), ("fold", 0), ("reqfold", 0), ("dup", 0), ("cfgmix", 0, 13 if q else 1)] + ([] if q else [("base", 1), ("fold", 1)]))
     logical_campaign(ctx, 400 if q else 20000)
     return dict(
         rule="E: 5 methods (incl. extension methods) x 5 HTTP versions x 5 header multisets (repeats, empty and non-UTF-8 "
